@@ -5,6 +5,7 @@ package main
 import (
 	"fmt"
 	"os"
+	"sync"
 	"time"
 	"sort"
 	"strings"
@@ -86,16 +87,75 @@ type Stats struct {
 	IfConv       int
 }
 
+// Pool is the shared DFS work stack of the workers exploring one harness.
+type Pool struct {
+	mu       sync.Mutex
+	cond     *sync.Cond
+	work     []workItem
+	active   int
+	paths    int
+	maxPaths int
+	overflow bool
+}
+
+func newPool(maxPaths int) *Pool {
+	p := &Pool{maxPaths: maxPaths}
+	p.cond = sync.NewCond(&p.mu)
+	return p
+}
+
+func (p *Pool) push(it workItem) {
+	p.mu.Lock()
+	p.work = append(p.work, it)
+	p.mu.Unlock()
+	p.cond.Signal()
+}
+
+// pop blocks until an item is available or every worker is idle.
+func (p *Pool) pop() (workItem, bool) {
+	p.mu.Lock()
+	defer p.mu.Unlock()
+	for {
+		if p.maxPaths > 0 && p.paths >= p.maxPaths {
+			if len(p.work) > 0 {
+				p.overflow = true
+			}
+			p.cond.Broadcast()
+			return workItem{}, false
+		}
+		if n := len(p.work); n > 0 {
+			it := p.work[n-1]
+			p.work = p.work[:n-1]
+			p.active++
+			p.paths++
+			return it, true
+		}
+		if p.active == 0 {
+			p.cond.Broadcast()
+			return workItem{}, false
+		}
+		p.cond.Wait()
+	}
+}
+
+func (p *Pool) done() {
+	p.mu.Lock()
+	p.active--
+	p.mu.Unlock()
+	p.cond.Broadcast()
+}
+
 type Explorer struct {
 	in      *Interp
 	solver  *Solver
-	work    []workItem
+	pool    *Pool
 	stats   *Stats
 	path    *Path
 	maxSteps int64
 	maxPaths int
 	maxViolPerID int
 	lastProg time.Time
+	id      int
 	shard   *shardSel
 	fixed   []replayVal // concrete mode: values for nondets in call order
 	fixedPos int
@@ -177,7 +237,7 @@ func (ex *Explorer) branchAux(cond *Term, aux uint64) bool {
 	switch res {
 	case Sat:
 		alt := append(append([]dec(nil), p.taken...), dec{b2i(!mv), aux})
-		ex.work = append(ex.work, workItem{prefix: alt, model: m})
+		ex.pool.push(workItem{prefix: alt, model: m})
 	case Unknown:
 		ex.inconclusive("solver unknown at branch: " + strings.Join(ex.solver.lastErrors(), "; "))
 	}
@@ -216,7 +276,7 @@ func (ex *Explorer) choose(n int, label string) int {
 	}
 	for i := n - 1; i >= 1; i-- {
 		alt := append(append([]dec(nil), p.taken...), dec{i, 0})
-		ex.work = append(ex.work, workItem{prefix: alt, model: p.model})
+		ex.pool.push(workItem{prefix: alt, model: p.model})
 	}
 	p.taken = append(p.taken, dec{0, 0})
 	return 0
@@ -382,20 +442,18 @@ func (ex *Explorer) cover(c *Term, label string) {
 	}
 }
 
-// Run explores all paths of fn.
+// Run explores paths from the shared pool until it is exhausted.
 func (ex *Explorer) Run(run func()) {
-	ex.work = []workItem{{prefix: nil, model: Model{}}}
-	for len(ex.work) > 0 {
-		if ex.maxPaths > 0 && ex.stats.Paths >= ex.maxPaths {
-			ex.inconclusive(fmt.Sprintf("path budget %d exhausted with %d prefixes pending", ex.maxPaths, len(ex.work)))
+	for {
+		it, ok := ex.pool.pop()
+		if !ok {
 			return
 		}
-		it := ex.work[len(ex.work)-1]
-		ex.work = ex.work[:len(ex.work)-1]
 		ex.runOne(it, run)
+		ex.pool.done()
 		if os.Getenv("GOSYM_PROGRESS") != "" && time.Since(ex.lastProg) > 5*time.Second {
 			ex.lastProg = time.Now()
-			fmt.Fprintf(os.Stderr, "   .. paths=%d pending=%d queries=%d solver=%.1fs steps=%d ifconv=%d\n", ex.stats.Paths, len(ex.work), ex.solver.Queries, ex.solver.SolverSec, ex.stats.Steps, ex.stats.IfConv)
+			fmt.Fprintf(os.Stderr, "   .. [w%d] paths=%d queries=%d solver=%.1fs steps=%d ifconv=%d\n", ex.id, ex.stats.Paths, ex.solver.Queries, ex.solver.SolverSec, ex.stats.Steps, ex.stats.IfConv)
 		}
 	}
 }
@@ -468,4 +526,52 @@ func sortedKeys(m map[string]bool) []string {
 	}
 	sort.Strings(out)
 	return out
+}
+
+func (st *Stats) merge(o *Stats) {
+	st.Paths += o.Paths
+	st.PathsDone += o.PathsDone
+	st.PathsAssume += o.PathsAssume
+	st.PathsPanic += o.PathsPanic
+	st.PathsDead += o.PathsDead
+	st.Asserts += o.Asserts
+	st.AssertsConst += o.AssertsConst
+	st.Steps += o.Steps
+	st.IfConv += o.IfConv
+	for _, m := range o.Inconclusive {
+		dup := false
+		for _, x := range st.Inconclusive {
+			if x == m {
+				dup = true
+			}
+		}
+		if !dup && len(st.Inconclusive) < 50 {
+			st.Inconclusive = append(st.Inconclusive, m)
+		}
+	}
+	for k, v := range o.Reach {
+		st.Reach[k] += v
+	}
+	for k, v := range o.Cover {
+		if v || !st.Cover[k] {
+			st.Cover[k] = st.Cover[k] || v
+		}
+	}
+	for k := range o.Funcs {
+		st.Funcs[k] = true
+	}
+	for k := range o.Stubs {
+		st.Stubs[k] = true
+	}
+	for _, v := range o.Violations {
+		st.violSeen[v.ID]++
+		if st.violSeen[v.ID] <= 3 {
+			st.Violations = append(st.Violations, v)
+		}
+	}
+	for _, s := range o.Samples {
+		if len(st.Samples) < 6 {
+			st.Samples = append(st.Samples, s)
+		}
+	}
 }
